@@ -18,7 +18,9 @@ import (
 	"reflect"
 	"sync"
 	"time"
+	"unsafe"
 
+	"github.com/imroc/req/v3/internal/http3"
 	"github.com/quic-go/quic-go"
 	qhttp3 "github.com/quic-go/quic-go/http3"
 	xhttp2 "golang.org/x/net/http2"
@@ -351,8 +353,8 @@ func c17Client(proto string) *Client {
 		c.EnableForceHTTP3()
 		// Before fixes/C12-1 the fork's HTTP/3 round tripper reads a TLS field of its own; set it
 		// when it (still) exists — through reflection, so that the harness compiles either way.
-		if c.Transport.t3 != nil {
-			if f := reflect.ValueOf(c.Transport.t3).Elem().FieldByName("TLSClientConfig"); f.IsValid() && f.CanSet() {
+		if t3 := c17H3(c); t3 != nil {
+			if f := reflect.ValueOf(t3).Elem().FieldByName("TLSClientConfig"); f.IsValid() && f.CanSet() {
 				f.Set(reflect.ValueOf(&tls.Config{InsecureSkipVerify: true}))
 			}
 		}
@@ -365,9 +367,23 @@ func c17Client(proto string) *Client {
 // c17Done releases the connections of a per-case client (thousands of cases per run).
 func c17Done(c *Client) {
 	c.Transport.CloseIdleConnections()
-	if c.Transport.t3 != nil {
-		c.Transport.t3.Close()
+	if t3 := c17H3(c); t3 != nil {
+		t3.Close()
 	}
+}
+
+// c17H3 finds the client's HTTP/3 round tripper by its TYPE among the transport's fields (the
+// harness does not depend on what the field is called); nil when HTTP/3 is not enabled.
+func c17H3(c *Client) *http3.RoundTripper {
+	v := reflect.ValueOf(c.Transport).Elem()
+	want := reflect.TypeOf((*http3.RoundTripper)(nil))
+	for i := 0; i < v.NumField(); i++ {
+		if f := v.Field(i); f.Type() == want {
+			rt, _ := reflect.NewAt(f.Type(), unsafe.Pointer(f.UnsafeAddr())).Elem().Interface().(*http3.RoundTripper)
+			return rt
+		}
+	}
+	return nil
 }
 
 // c17AsRequest rebuilds a server-side *http.Request from what arrived, so that the standard
